@@ -1324,7 +1324,7 @@ class DayTimeDuration(Duration):
         return '%s(seconds=%s)' % (self.__class__.__name__, normalized_seconds(self.seconds))
 
     def __add__(self, other: object) -> Union['DayTimeDuration', Time, AbstractDateTime]:
-        if isinstance(other, (Time, Date)):
+        if isinstance(other, (Time, Date, DateTime)):
             return other + self
         elif isinstance(other, self.__class__):
             return DayTimeDuration(self.seconds + other.seconds)
